@@ -130,7 +130,7 @@ def run_tlc(module, cfg_text, workdir, files=None, workers=None, timeout=1800, s
     meta = os.path.join(workdir, "meta-" + module)
     shutil.rmtree(meta, ignore_errors=True)
     if workers is None:
-        workers = min(16, os.cpu_count() or 4)
+        workers = int(os.environ.get("VERIF_WORKERS", "0")) or min(16, os.cpu_count() or 4)
     jtmp = os.path.join(workdir, "jtmp")            # TLC's own temporary directory: inside the scratch area, removed with it
     os.makedirs(jtmp, exist_ok=True)
     java = ["java", "-XX:+UseParallelGC", "-Xss512m", "-Dfile.encoding=UTF-8", "-Djava.io.tmpdir=" + jtmp]
